@@ -126,6 +126,10 @@ def _absdt(info, c):
                 'utf8': bool(info.get('isUTF8', False))}
     if t == 'bool':
         return {'t': 'bool'}
+    if t == 'scaled':           # abstract values of a scaled integer are the transported integers
+        return {'t': 'scaled', 'lo': c.bound(info.get('min'), -(1 << 24)), 'hi': c.bound(info.get('max'), 1 << 24)}
+    if t == 'blob':
+        return {'t': 'blob', 'minb': info.get('minbytes', 0), 'maxb': info['maxbytes']}
     if t == 'array':
         return {'t': 'array', 'el': _absdt(info['members'], c), 'minlen': info.get('minlen', 0), 'maxlen': info['maxlen']}
     if t == 'tuple':
@@ -180,6 +184,33 @@ def project_description(desc, c):
     return out, iface, feat, units
 
 
+def digest(x):
+    import hashlib
+    return hashlib.md5(json.dumps(x, sort_keys=True, default=repr).encode()).hexdigest()[:8]
+
+
+def props_of(kind, get):
+    """the descriptive properties C06 compares, from a getter (described JSON or the generator's / object's data)"""
+    res = {'description': digest(get('description', '')), 'group': str(get('group', '') or ''),
+           'visibility': int(get('visibility', 1) or 1)}
+    if kind == 'module':
+        mn = get('meaning', None)
+        res['meaning'] = '' if not mn or tuple(mn) == ('', 0) else f'{mn[0]}:{mn[1]}'
+    return res
+
+
+def project_props(desc):
+    """describe reply -> {module: {'mod': props, 'acc': {wire: props}}} and the node level record"""
+    props = {}
+    for m, md in desc['modules'].items():
+        props[m] = {'mod': props_of('module', md.get),
+                    'acc': {w: props_of('acc', ad.get) for w, ad in md['accessibles'].items()}}
+    node = {'keys': sorted(desc), 'equipment_id': digest(desc.get('equipment_id')),
+            'description': digest(desc.get('description')),
+            'custom': {k: digest(v) for k, v in desc.items() if k.startswith('_')} or {'-': '-'}}
+    return props, node
+
+
 # ------------------------------------------------------------------ probing a node
 
 class Prober:
@@ -207,6 +238,7 @@ class Prober:
                     self.dts[m, w] = e
         self.seen = {}          # (mod, wire) -> last value seen on the wire
         self.events = []
+        self.expnode = None     # set by the caller: what the node level of the report has to contain
 
     def _rebuilt_ok(self, key, act, payload):
         dt = self.dts.get(key)
@@ -238,14 +270,18 @@ class Prober:
             return False
 
     def request(self, act, mod, name, payload, strict=False):
-        key = (mod, name)
+        key = (mod, name or dc.wire_of({'act': act, 'name': name}))     # "change m" addresses m:target
         del self.conn.msgs[:]
         spec = f'{mod}:{name}' if name else mod
         ev = {'req': {'act': act, 'mod': mod, 'name': name, 'payload': payload},
-              'prev': self.seen.get(key), 'strict': strict,
+              'prev': self.seen.get(key), 'strict': strict, 'same': True,
               'real_ok': self._rebuilt_ok(key, act, payload) if act in ('change', 'do') else True}
         rep = dc.handle(self.d, self.conn, (act, spec, payload))
         ev['cls'] = rep[2][0] if rep[0].startswith('error_') else 'ok'
+        if act == 'describe' and ev['cls'] == 'ok':
+            part = self.desc['modules'].get(mod, {})
+            part = part.get('accessibles', {}).get(name) if name else part
+            ev['same'] = json.dumps(rep[2], sort_keys=True, default=repr) == json.dumps(part, sort_keys=True)
         ev['text'] = str(rep[2][1])[:100] if rep[0].startswith('error_') else ''
         ev['value'] = None
         ev['imp'] = True
@@ -278,11 +314,16 @@ class Prober:
         else:
             c = Ident()
         desc, iface, feat, units = project_description(self.desc, c)
+        props, node = project_props(self.desc)
+        for m in expect:
+            if 'props' not in expect[m]:          # unknown to the caller: not compared
+                expect[m]['props'] = props.get(m, {})
         for m in expect:
             if 'units' not in expect[m]:      # unknown: at least no '$' may be left where the module has a main unit
                 main = units.get(m, {}).get('value', '')
                 expect[m]['units'] = {w: (u.replace('$', main) if main else u) for w, u in units.get(m, {}).items()}
         first = {'ev': 'describe', 'desc': desc, 'iface': iface, 'features': feat, 'units': units, 'expect': expect,
+                 'props': props, 'node': node, 'expnode': self.expnode or node,
                  'stable': self.stable, 'strict': self.strict and self.ok,
                  'expdesc': expdesc if expdesc is not None else NULL}
         tr = [first]
@@ -290,6 +331,7 @@ class Prober:
             tr.append({'ev': 'req', 'req': dict(ev['req'], payload=abs_json(ev['req']['payload'], c)),
                        'prev': abs_json(ev['prev'], c), 'cls': ev['cls'], 'value': abs_json(ev['value'], c),
                        'real_ok': ev['real_ok'], 'imp': ev['imp'] and ev.get('strictjson', True), 'strict': ev['strict'],
+                       'same': ev['same'],
                        'upd': [dict(u, v=abs_json(u['v'], c)) for u in ev['upd']]})
         return tr
 
@@ -311,20 +353,57 @@ def _expect_of(shape, bases, feats=None):
 def _strict(shape, mod, name):
     for a in shape.get(mod, {}).values():
         if a['wire'] == name and name and a['kind'] == 'param':
-            return not a['hooks'] and a['lim']['kind'] == 'none'
+            return not a['hooks'] and a['lim']['kind'] == 'none' and a['drv'] != 'raise' and a['dt']['t'] != 'limits'
     return False
 
 
 # ---- spec -> code: shapes, demanded descriptions and probes printed by TLC
+
+GEN_NODE = {'keys': sorted(['modules', 'equipment_id', 'firmware', 'description', '_custom']),
+            'equipment_id': None, 'description': None, 'custom': None}      # filled in below (digests)
+
+
+def _gen_expnode():
+    return {'keys': GEN_NODE['keys'], 'equipment_id': digest('verif_node'), 'description': digest('generated node'),
+            'custom': {'_custom': digest('c1')}}
+
+
+def _describe_probes(p, shape_names, rnd=None):
+    """describe <module> / <module>:<accessible> for described and undescribed names"""
+    mods = list(p.desc['modules'])
+    cases = [(m, '') for m in mods] + [('h', ''), ('zz', '')]
+    for m in mods:
+        names = list(p.desc['modules'][m]['accessibles'])
+        cases += [(m, n) for n in (names if rnd is None else rnd.sample(names, min(2, len(names))))]
+        cases += [(m, n) for n in shape_names.get(m, []) + ['nope']]
+    for m, n in cases:
+        p.request('describe', m, n, None)
+
+
+def _undescribed_names(shape):
+    """attribute names and class-level names that are no wire names, plus the accessibles that must not exist"""
+    res = {}
+    for m, accs in shape.items():
+        wires = {a['wire'] for a in accs.values()}
+        res[m] = sorted(({a for a in accs} | {(x.get('cls') or {}).get('wire', '') for x in accs.values()}
+                         | {'_popt', '_copt', '_prem'}) - wires - {''})
+    return res
+
 
 def _run_node(node):
     dc.boot()
     shape = node['shape']
     bases = {m: node['base'] for m in shape}
     feats = {m: node['feats'] for m in shape}
-    w = dc.World(shape, bases, feats)
+    try:
+        w = dc.World(shape, bases, feats)
+    except Exception as e:      # the class / the module cannot even be created
+        return {'build_error': repr(e)[:200], 'constants': sorted({x['dt']['t'] for accs in shape.values() for x in accs.values()
+                                                                  if x['kind'] == 'param' and x['const'] != NULL})}
     p = Prober(w.srv.dispatcher)
+    p.expnode = _gen_expnode()
     p.first_reads()
+    _describe_probes(p, _undescribed_names(shape))
     reqs = sorted(node['probes'], key=lambda r: json.dumps(r, sort_keys=True))
     for r in reqs:
         p.request(r['act'], r['mod'], r['name'], dc.conc(r['payload']), _strict(shape, r['mod'], r['name']))
@@ -360,9 +439,22 @@ def _random_node(seed):
         names = rnd.sample(['VFeatA', 'VFeatB', 'HasOffset'], rnd.choice([0, 0, 1, 1, 2]))
         feats[m] = [{'name': f, 'how': rnd.choice(['direct', 'mid', 'base'])} for f in names]
         dc.with_features(accs, feats[m])
-    w = dc.World(shape, bases, feats)
+    # descriptive properties: on accessibles through the class, on modules through the configuration
+    modprops = {}
+    for m, accs in shape.items():
+        for a in accs.values():
+            if not a.get('islimit') and not a.get('feature') and rnd.random() < 0.4:
+                a['props'] = {'description': rnd.choice(['first line\n\nmore text', 'short', 'ünïcode']),
+                              'group': rnd.choice(['', 'g1', 'grp2']), 'visibility': rnd.choice([1, 2, 3])}
+        if rnd.random() < 0.6:
+            modprops[m] = {'description': rnd.choice(['module text', 'other\ntext']), 'group': rnd.choice(['', 'mg']),
+                           'visibility': rnd.choice(['user', 'advanced', 'expert']),
+                           'meaning': rnd.choice([['temperature', 10], ['', 0], ['magneticfield', 3]])}
+    w = dc.World(shape, bases, feats, modprops)
     p = Prober(w.srv.dispatcher)
+    p.expnode = _gen_expnode()
     p.first_reads()
+    _describe_probes(p, _undescribed_names(shape), rnd)
     c = Ident()
     desc, _, _, _ = project_description(p.desc, c)
     names = [(m, n) for m in desc for n in desc[m]]
@@ -406,6 +498,24 @@ def _random_node(seed):
                 for b in [a] + [accs[x] for x in lims if x]:
                     if b['wire']:
                         expect[m]['units'][b['wire']] = u
+    vis = {'user': 1, 'advanced': 2, 'expert': 3}
+    for m, accs in shape.items():
+        if bases.get(m, 'Module') != 'Module' or feats.get(m):
+            continue                      # (inherited accessibles / features carry descriptions of their own)
+        mp = modprops.get(m, {})
+        acc_props = {}
+        for attr, a in accs.items():
+            if not a['wire']:
+                continue
+            if a.get('islimit'):
+                acc_props[a['wire']] = props_of('acc', {'description': 'limit for ' + attr.rpartition('_')[0]}.get)
+            else:
+                acc_props[a['wire']] = props_of('acc', dict({'description': 'p' if a['kind'] == 'param' else 'c'},
+                                                            **(a.get('props') or {})).get)
+        expect[m]['props'] = {'mod': props_of('module', {'description': mp.get('description', 'd'), 'group': mp.get('group', ''),
+                                                        'visibility': vis[mp.get('visibility', 'user')],
+                                                        'meaning': mp.get('meaning')}.get),
+                              'acc': acc_props}
     return {'trace': p.trace(expect), 'hidden': [list(h) for h in hidden]}
 
 
@@ -517,9 +627,20 @@ def _shipped(cfg):
         from frappy.modulebase import Feature
         expect[m] = {'wires': sorted(a.export for a in obj.accessibles.values() if a.export),
                      'iface': [] if top == 'Module' else [top],
-                     'features': [b.__name__ for b in type(obj).__mro__ if Feature in b.__bases__]}
+                     'features': [b.__name__ for b in type(obj).__mro__ if Feature in b.__bases__],
+                     # the descriptive properties as the module / accessible objects hold them
+                     'props': {'mod': props_of('module', lambda k, d=None, o=obj: getattr(o, k, d)),
+                               'acc': {a.export: props_of('acc', lambda k, d=None, o=a: getattr(o, k, d))
+                                       for a in obj.accessibles.values() if a.export}}}
     p = Prober(srv.dispatcher)
+    p.expnode = {'keys': sorted(['modules', 'equipment_id', 'firmware', 'description'] +
+                                [k for k in sec.nodeprops if k.startswith('_')]),
+                 'equipment_id': digest(sec.equipment_id), 'description': digest(sec.nodeprops.get('description')),
+                 'custom': {k: digest(v) for k, v in sec.nodeprops.items() if k.startswith('_')} or {'-': '-'}}
     p.first_reads()
+    _describe_probes(p, {m: [a for a, x in obj.accessibles.items() if a and x.export != a] +
+                            [a for a, x in type(obj).accessibles.items() if a and a not in obj.accessibles]
+                         for m, obj in sec.modules.items() if obj.export})
     hidden = [m for m, obj in sec.modules.items() if not obj.export]
     for m, md in list(p.desc['modules'].items()):
         obj = sec.modules[m]
@@ -566,7 +687,7 @@ def _sig(tr, l, clause, world, hidden=()):
     if l == 1:
         return {'module': 'Describe', 'clause': clause, 'world': world}
     req = ev['req']
-    d = tr[0]['desc'].get(req['mod'], {}).get(req['name'])
+    d = tr[0]['desc'].get(req['mod'], {}).get(req['name'] or dc.wire_of(req))
     dt = 'undescribed' if d is None else (d['dt'] if d['kind'] == 'param' else d['arg'])['t']
     target = 'undescribed' if d is None else d['kind'] + (':const' if d.get('const', NULL) != NULL else
                                                            ':ro' if d.get('ro') else '')
@@ -594,8 +715,15 @@ def run(chk):
     nodes = r.printed('NODE')
     if not nodes:
         raise MachineryError('Gen_Describe printed nothing')
-    traces = pool_map(_run_node, nodes)
-    worlds = ['generated:' + json.dumps(n['sid']) for n in nodes]
+    traces, worlds = [], []
+    for nd, tr in zip(nodes, pool_map(_run_node, nodes)):
+        if isinstance(tr, dict):          # the node could not be built at all
+            chk.case('generated:' + json.dumps(nd['sid']), True)
+            chk.violation({'module': 'Describe', 'clause': 'node.build', 'constants': tr['constants']},
+                          {'world': 'generated:' + json.dumps(nd['sid']), 'error': tr['build_error'], 'shape': nd['shape']})
+            continue
+        traces.append(tr)
+        worlds.append('generated:' + json.dumps(nd['sid']))
 
     n = 60 if quick else 1500
     hidden = [[] for _ in traces]
